@@ -49,10 +49,10 @@ def trace_noise(n, instrs, procs):
     events = []
     saved = (D.apply_single_qubit_gate, D.apply_two_qubit_gate, D.apply_dissipation, D.stochastic_process)
 
-    def g1(state, node):
+    def g1(state, node, *extra, **kw):
         events.append(("G1", [q._index for q in node.qargs]))  # noqa: SLF001
 
-    def g2(state, node, sp):
+    def g2(state, node, sp, *extra, **kw):
         a, b = (q._index for q in node.qargs)  # noqa: SLF001
         events.append(("G2", [a, b]))
         return min(a, b), max(a, b)
